@@ -7,6 +7,10 @@ REQUIRED = [
     "DaeVerif.C20.Props.accept_only_when_idle",
     "DaeVerif.C20.Props.refusal_is_pure",
     "DaeVerif.C20.Props.refusal_reports_busy",
+    "DaeVerif.C20.Props.ready_wait_is_in_progress",
+    "DaeVerif.C20.Props.signal_in_ready_wait_reports_busy",
+    "DaeVerif.C20.Props.signal_while_in_progress_is_refused_busy",
+    "DaeVerif.C20.Props.answer_lands_after_ready_wait",
     "DaeVerif.C20.Props.queue_full_branch_unreachable",
     "DaeVerif.C20.Props.coalesce_drops_nothing",
     "DaeVerif.C20.Props.suppression_balanced",
@@ -16,7 +20,7 @@ REQUIRED = [
     "DaeVerif.C20.Props.internal_steps_terminate",
     "DaeVerif.C20.Props.pending_implies_progress_possible",
     "DaeVerif.C20.Props.eventually_accepts_again",
-    "DaeVerif.C20.Props.paths_answered",
+    "DaeVerif.C20.Props.answered_partial",
 ]
 
 KNOWN_STALE_BUSY = "c20-stale-busy-after-release"
@@ -80,10 +84,18 @@ def run(ctx):
         # property-level oracle on the implementation's own answers
         seq_start = 0
         reported_stuck = 0
+        reported_swallow = 0
         for i, (op, im) in enumerate(zip(lo, li)):
             if op == "reset":
                 seq_start = i
             distinct.add(op if not op.startswith(("wake ", "wstart ")) else op.split(" !")[0][:60])
+            if op.startswith("swallow ") and " f=busy" not in im and not im.startswith("desync") and reported_swallow < 2:
+                reported_swallow += 1
+                ctx.report("a reload/suspend signal taken during the hand-off's serve-ready wait was not answered with a busy report "
+                           "(progress file unchanged): " + im,
+                           {"schedule": lo[seq_start:i + 1], "state_after": im,
+                            "replay": "VERIF_SEED=%d ./check C20 %s" % (ctx.seed, ctx.tier)},
+                           key="c20-signal-in-ready-wait-not-reported")
             if op == "quiet?" and "stuck=1" in im and reported_stuck < 3:
                 reported_stuck += 1
                 sched = lo[seq_start:i + 1]
